@@ -125,21 +125,7 @@ def run(repo: Repo, rep: Report, tier: str) -> None:
             bounded = len(c_.args) > 1 or any(k.arg == "max_length" for k in c_.keywords)
             drains = any(isinstance(x, ast.Attribute) and x.attr == "unconsumed_tail" for x in ast.walk(dec))
             rep.check(not bounded or drains, "deflate", "dsutils.decode", enclosing(c_, (ast.stmt,)), "the inflater is given an output limit and what it leaves in unconsumed_tail is never read: a deflated data set that inflates beyond the limit reaches the handler silently truncated while the status says Success", mod=ds, node=c_)
-    for fn, c, nm in ((enc, comp[0], "encode"), (dec, deco[0], "decode")):
-        g = enclosing(c, (ast.If,))
-        rep.check(g is not None and norm(g.test) == "deflated" and any(x is c for s in g.body for x in ast.walk(s)), "deflate", f"dsutils.{nm}", f"{norm(c.func)} under `if deflated:`", "(de)compression must happen exactly when the deflated flag is set", mod=ds, node=c)
-    pads = [s for s in walk_no_nested(enc) if isinstance(s, ast.AugAssign) and isinstance(s.value, ast.IfExp) and "% 2" in norm(s.value.test)]
-    okp = len(pads) == 1 and norm(pads[0].value.body) == "b'\\x00'" and norm(pads[0].value.orelse) == "b''" and enclosing(pads[0], (ast.If,)) is not None and norm(enclosing(pads[0], (ast.If,)).test) == "deflated"
-    rep.check(okp, "deflate", "dsutils.encode", pads[0] if pads else "pad byte", "the deflated stream is padded to even length with one NUL byte (PS3.5 A.5) and nothing else is padded (an uncompressed data set is already even)", mod=ds, node=pads[0] if pads else enc)
-    forced = [g for g in walk_no_nested(dec) if isinstance(g, ast.If) and norm(g.test) == "deflated" and any(norm(s) == "is_implicit_vr = False" for s in g.body)]
-    okf = len(forced) == 1 and any(norm(s) == "is_little_endian = True" for s in forced[0].body)
-    rep.check(okf, "deflate", "dsutils.decode", "deflated -> explicit VR little endian", "a deflated data set is explicit VR little endian inside (PS3.5 A.5)", mod=ds, node=forced[0] if forced else dec)
-    rd = [c for c in walk_no_nested(dec) if isinstance(c, ast.Call) and dotted(c.func) == "read_dataset"]
-    okr = len(rd) == 1 and [norm(a) for a in rd[0].args[1:3]] == ["is_implicit_vr", "is_little_endian"]
-    rep.check(okr, "deflate", "dsutils.decode", rd[0] if rd else "read_dataset(..)", "read_dataset must get (implicit VR, little endian) in that order", mod=ds, node=rd[0] if rd else dec)
-    wr = [s for s in walk_no_nested(enc) if isinstance(s, ast.Assign) and norm(s.targets[0]) in ("fp.is_implicit_VR", "fp.is_little_endian")]
-    okw = sorted((norm(s.targets[0]), norm(s.value)) for s in wr) == [("fp.is_implicit_VR", "is_implicit_vr"), ("fp.is_little_endian", "is_little_endian")]
-    rep.check(okw, "deflate", "dsutils.encode", f"writer flags {[(norm(s.targets[0]), norm(s.value)) for s in wr]}", "the writer's VR / byte-order flags must be the function's parameters of the same meaning", mod=ds, node=enc)
+    check_codec_evaluated(repo, rep)
 
     # ---- chunked receive ---------------------------------------------------------------------
     dm = repo.mod("dimse_messages")
@@ -408,3 +394,133 @@ def check_receive_mode_decided_once(repo: Repo, rep: Report, rule: str = "mode-d
         q = f"{short}.{qualname(x)}"
         rep.check(short in ("dimse_messages", "dimse"), rule, q, enclosing(x, (ast.stmt,)) or x, "the receive mode is read from the global configuration a second time, outside the reader that decided where this request's data set went: when the flag has changed in between the consumer looks in the wrong place - the handler gets an empty Dataset / b'' (or the SCP tries to read a file that was never written) while the bytes that arrived are elsewhere", mod=m, node=x)
     rep.floor("reads of STORE_RECV_CHUNKED_DATASET", n, 1)
+
+
+class _Stream:
+    """io.BytesIO as far as dsutils uses one"""
+
+    _minipy_methods = {"seek", "getvalue", "read", "tell", "write", "close", "getbuffer"}
+
+    def __init__(self, content=b"", pos=0):
+        self.content, self.pos = bytes(content), pos
+
+    def seek(self, off, whence=0):
+        self.pos = off if whence == 0 else self.pos + off if whence == 1 else len(self.content) + off
+        return self.pos
+
+    def tell(self):
+        return self.pos
+
+    def getvalue(self):
+        return self.content
+
+    def getbuffer(self):
+        return self.content
+
+    def read(self, n=-1):
+        out = self.content[self.pos:] if n is None or n < 0 else self.content[self.pos:self.pos + n]
+        self.pos += len(out)
+        return out
+
+    def write(self, b):
+        self.content = self.content[:self.pos] + bytes(b) + self.content[self.pos + len(b):]
+        self.pos += len(b)
+        return len(b)
+
+    def close(self):
+        return None
+
+
+class _Compressor:
+    _minipy_methods = {"compress", "flush"}
+
+    def __init__(self, wbits):
+        self.wbits = wbits
+
+    def compress(self, data):
+        return b"Z" + str(self.wbits).encode() + b"[" + bytes(data)
+
+    def flush(self, *a):
+        return b"]"
+
+
+def check_codec_evaluated(repo: Repo, rep: Report, rule: str = "deflate") -> None:
+    """dsutils.encode() and decode(), evaluated (sa/minipy.py) with recording stand-ins for the pydicom writer /
+    reader and a marker transform for zlib: for every combination of the three flags the writer must be given
+    exactly the VR / byte-order flags of the call, (de)compression must happen exactly when `deflated` is set,
+    with a raw-deflate window, the deflated stream is padded to even length with one NUL and nothing else is,
+    decode() reads the whole stream (rewound) and treats a deflated data set as explicit VR little endian."""
+    from ..minipy import Interp, Obj, Raised, Unsupported
+
+    ds = repo.mod("dsutils")
+    enc, dec = ds.funcs["encode"], ds.funcs["decode"]
+
+    def zmod():
+        def _decompress(s_, data, wbits=15, *a):
+            data = bytes(data)
+            pre = b"Z" + str(wbits).encode() + b"["
+            body = data.rstrip(b"\x00")
+            if not (body.startswith(pre) and body.endswith(b"]")):
+                raise Raised("zlib.error")
+            return body[len(pre):-1]
+
+        return Obj("zlib", {"MAX_WBITS": 15, "Z_DEFAULT_COMPRESSION": -1, "Z_BEST_COMPRESSION": 9, "DEFLATED": 8,
+                            "@compressobj": lambda s_, level=-1, method=8, wbits=15, *a, **k: _Compressor(wbits),
+                            "@compress": lambda s_, data, level=-1, wbits=15: b"Z" + str(wbits).encode() + b"[" + bytes(data) + b"]",
+                            "@decompress": _decompress,
+                            "@decompressobj": lambda s_, wbits=15: None})
+
+    n = 0
+    try:
+        for iv, le, dfl in [(a_, b_, c_) for a_ in (True, False) for b_ in (True, False) for c_ in (False, True)]:
+            for payload in (b"ab", b"abc"):
+                calls = []
+
+                def write_dataset(fp, dset, calls=calls, payload=payload):
+                    flags = (fp.get("is_implicit_VR"), fp.get("is_little_endian"))
+                    calls.append(flags)
+                    fp.attrs["_buf"].write(b"DS|" + repr(flags).encode() + b"|" + payload)
+
+                def new_fp():
+                    buf = _Stream()
+                    return Obj("DicomBytesIO", {"is_implicit_VR": None, "is_little_endian": None, "_buf": buf, "parent": buf, "@getvalue": lambda s_: buf.getvalue(), "@close": lambda s_: None, "@seek": lambda s_, *a: buf.seek(*a), "@read": lambda s_, *a: buf.read(*a)})
+
+                it = Interp({"zlib": zmod(), "write_dataset": write_dataset, "len": len}, classes={"DicomBytesIO": new_fp, "BytesIO": lambda *a: _Stream(*a)})
+                params = [a.arg for a in enc.args.args]
+                n += 1
+                try:
+                    out = it.call_function(enc, dict(zip(params, [Obj("Dataset", {}), iv, le, dfl])))
+                except Raised as r_:
+                    out = f"raises {r_.kind}"
+                plain = b"DS|" + repr((iv, le)).encode() + b"|" + payload
+                if dfl:
+                    want = b"Z-15[" + plain + b"]"
+                    want += b"\x00" if len(want) % 2 else b""
+                else:
+                    want = plain
+                ok = isinstance(out, (bytes, bytearray)) and bytes(out) == want and calls == [(iv, le)]
+                rep.check(ok, rule, "dsutils.encode", f"encode(ds, implicit={iv}, little={le}, deflated={dfl}), {len(plain)} encoded bytes -> {out!r:.60}", f"the writer must be run once with exactly the VR / byte-order flags of the call, the result deflated (raw deflate, window -MAX_WBITS) exactly when `deflated` is set and then padded to even length with one NUL, and left alone otherwise; expected {want!r:.60}: otherwise the peer decodes other bytes than were encoded (or cannot decode them)", mod=ds, node=enc)
+        for iv, le, dfl in ((True, True, False), (False, True, False), (False, False, False), (False, True, True), (True, False, True)):
+            for pad in (b"", b"\x00"):
+                seen = []
+
+                def read_dataset(bs, a, b, *rest, seen=seen, **kw):
+                    seen.append((bs.read() if hasattr(bs, "read") else None, a, b))
+                    return Obj("Dataset", {})
+
+                inner = b"DATA-SET"
+                wire = (b"Z-15[" + inner + b"]" + pad) if dfl else inner + pad
+                stream = _Stream(wire, pos=len(wire))  # as left by the writes that filled it
+                it = Interp({"zlib": zmod(), "read_dataset": read_dataset}, classes={"BytesIO": lambda *a: _Stream(*a)})
+                params = [a.arg for a in dec.args.args]
+                n += 1
+                try:
+                    it.call_function(dec, dict(zip(params, [stream, iv, le, dfl])))
+                    got = seen[0] if len(seen) == 1 else f"{len(seen)} reads"
+                except Raised as r_:
+                    got = f"raises {r_.kind}"
+                want = (inner, False, True) if dfl else (wire, iv, le)
+                rep.check(got == want, rule, "dsutils.decode", f"decode(stream, implicit={iv}, little={le}, deflated={dfl}) -> reader given {got!r:.70}", f"the reader must be given the whole stream from its start (inflated with a raw-deflate window exactly when `deflated` is set) with the flags of the call - explicit VR little endian for a deflated data set; expected {want!r:.70}", mod=ds, node=dec)
+    except Unsupported as exc:
+        rep.defer(f"dsutils.encode / decode could not be evaluated ({exc})")
+    rep.floor("encode / decode evaluations", n, 15)
